@@ -195,6 +195,24 @@ HOOKS_MERGE = ("sanity_check", "pre_merge", "merge", "post_merge")
 HOOKS_REST = ("pre_unmerge", "unmerge", "post_unmerge", "final")
 
 
+def probe(sb, e):
+    """the object at the entry's own path as the kernel resolves it (ancestor symlinks followed, the last component not)"""
+    loc = sb.path(e["p"])
+    try:
+        st = os.lstat(loc)
+    except OSError:
+        return ("absent", None)
+    import stat as _st
+    if _st.S_ISDIR(st.st_mode):
+        return ("dir", None)
+    if _st.S_ISLNK(st.st_mode):
+        return ("sym", os.readlink(loc))
+    if _st.S_ISREG(st.st_mode):
+        with open(loc, "rb") as f:
+            return ("file", f.read().hex(), st.st_ino)
+    return ("other", None)
+
+
 def run_real(kind, tree, old, new=None, offset_arg=True):
     """returns dict(pre, mid, post, ops, exc, outside)"""
     from pkgcore.fs import ops
@@ -221,6 +239,7 @@ def run_real(kind, tree, old, new=None, offset_arg=True):
                     for h in HOOKS_MERGE:
                         getattr(e, h)()
                     mid = snapshot(sb.root)
+                    probes = [probe(sb, x) for x in new]
                     nmid = len(rec.ops)
                     for h in HOOKS_REST:
                         getattr(e, h)()
@@ -234,20 +253,16 @@ def run_real(kind, tree, old, new=None, offset_arg=True):
                 if "/" + "/".join(b) in triggers.BaseSystemUnmergeProtection._preserve_sequence and not os.path.isdir(sb.path(b)):
                     oracle.append("protected directory /%s was removed" % "/".join(b))
             if kind == "replace":
+                # what the new package installed (as the kernel sees it at the entry's own path, right after the merge)
+                # must be exactly the same after the unmerge of the old package
                 oldlocs, newlocs = {tuple(x["p"]) for x in old}, {tuple(x["p"]) for x in new}
-                for e_ in new:
+                for e_, before in zip(new, probes):
                     if any(tuple(e_["p"][:i]) in oldlocs - newlocs for i in range(1, len(e_["p"]))):
                         continue          # ill-formed image: a parent is owned by the old package only (it may legitimately go)
-                    loc = sb.path(e_["p"])
-                    if e_["k"] == "dir":
-                        if not os.path.isdir(loc):
-                            oracle.append("directory %r of the new package is missing after the replace" % (e_["p"],))
-                    elif not os.path.lexists(loc):
-                        oracle.append("entry %r of the new package is missing after the replace" % (e_["p"],))
-                    elif e_["k"] == "reg" and os.path.isfile(loc) and not os.path.islink(loc):
-                        with open(loc, "rb") as f:
-                            if f.read().hex() != e_["data"]:
-                                oracle.append("entry %r of the new package has wrong data after the replace" % (e_["p"],))
+                    after = probe(sb, e_)
+                    if after != before:
+                        oracle.append("entry %r of the new package: %r right after the merge, %r after the unmerge of the old package"
+                                      % (e_["p"], before[:2], after[:2]))
         return {"pre": pre, "mid": mid, "post": post, "ops": rec.ops, "exc": exc, "outside": rec.outside, "oracle": oracle,
                 "nmid": locals().get("nmid")}
     finally:
@@ -292,7 +307,7 @@ def run(ctx):
     cases = list(CORPUS)
     if ctx.replay_cases:
         cases = [(c["kind"], c["tree"], c["old"], c.get("new")) for c in ctx.replay_cases if "kind" in c] + cases
-    for _ in range(ctx.n(1800, 16000)):
+    for _ in range(ctx.n(1400, 16000)):
         tree = gen_root(rng)
         kind = rng.choice(["unmerge", "uninstall", "uninstall", "replace", "replace"])
         if rng.random() < 0.5:
